@@ -15,6 +15,8 @@ inductive LOp where
   /-- start thread `u` (Thread.start / executor.submit) -/
   | spawn (u : Nat)
   | work
+  /-- an external call of unbounded duration made by the thread itself (`source.etag()`, `source.load()`) -/
+  | ext
 deriving Repr, DecidableEq
 
 structure TSt where
@@ -53,6 +55,7 @@ def step (s : LSt) (t : Nat) : LSt :=
     let s1 := setT s t { th with prog := p }
     setT s1 u { s1.ths u with started := true }
   | .work :: p => setT s t { th with prog := p }
+  | .ext :: p => setT s t { th with prog := p }
 
 def run (s : LSt) (sched : List Nat) : LSt := sched.foldl step s
 
@@ -63,12 +66,13 @@ def init (progs : Nat → List LOp) (roots : List Nat) : LSt :=
 /-! ### static conditions on programs (decidable; checked on the extracted programs by `decide`) -/
 
 /-- from lock depth `d`: never releases a lock it does not hold, never *waits for another thread while holding the
-    lock*, and ends with the lock released -/
+    lock*, never *makes an external call (policy source) while holding the lock*, and ends with the lock released -/
 def SafeFrom : Nat → List LOp → Bool
   | d, [] => d == 0
   | d, .acq :: p => SafeFrom (d + 1) p
   | d, .rel :: p => d > 0 && SafeFrom (d - 1) p
   | d, .wait _ :: p => d == 0 && SafeFrom d p
+  | d, .ext :: p => d == 0 && SafeFrom d p
   | d, _ :: p => SafeFrom d p
 
 /-- every `wait u` is preceded by `spawn u` in the same program or `u` is already running -/
